@@ -91,7 +91,14 @@ def replay(chk, cases, variants):
                 tgt = dist_unit(float(c["tgt"] * dist_per_yd))
             vc = ang_unit(float(c["vcorr"] * ang_per_mil))
             hc = ang_unit(float(c["hcorr"] * ang_per_mil))
-            row = impl.make_row(distance=tgt, drop_adj=vc, windage_adj=hc)
+            # a row of an inclined shot: its sight-line distance is longer than its (down-range) distance, the target distance
+            # of the row; every field that is not an input of the click computation differs from the one that is
+            if ci % 3 == 0:
+                row = impl.make_row(distance=tgt, drop_adj=vc, windage_adj=hc)
+            else:
+                row = impl.make_row(distance=tgt, drop_adj=vc, windage_adj=hc, look_distance=U.Foot((tgt >> U.Foot) * 1.25 + 7.0),
+                                    height=U.Foot(33.0), target_drop=U.Foot(-4.5), time=1.5)
+                chk.stratum("row_of_an_inclined_shot")
             for entry, fn in (("get_adjustment", lambda: sight.get_adjustment(tgt, vc, hc, c["mag"])),
                               ("get_trajectory_adjustment", lambda: sight.get_trajectory_adjustment(row, c["mag"]))):
                 o2 = impl.outcome(fn)
@@ -135,7 +142,7 @@ def run(chk: core.Check, replay_path=None, **_):
     for x in cases[:: max(1, len(cases) // 4)][:4]:
         chk.sample(x)
     core.reset_world()
-    chk.require_strata(["rejected", "FFP", "SFP", "LWIR", "pref_adjustment_tangent_unit", "caller_redisplays_click",
+    chk.require_strata(["row_of_an_inclined_shot", "rejected", "FFP", "SFP", "LWIR", "pref_adjustment_tangent_unit", "caller_redisplays_click",
                         "target_and_calibration_in_different_units",
                         "distance_display_and_preference_changed_after_construction"])
     chk.extra["unit_variants"] = [f"{a[0]}/{d[0]}" for a, d in variants]
